@@ -12,6 +12,7 @@ import (
 	"github.com/git-lfs/git-lfs/v3/lfshttp"
 	"github.com/git-lfs/git-lfs/v3/tools"
 	"github.com/git-lfs/git-lfs/v3/tr"
+	"github.com/git-lfs/git-lfs/v3/verifhook"
 	"github.com/rubyist/tracerx"
 )
 
@@ -358,6 +359,7 @@ func (q *TransferQueue) Add(name, path, oid string, size int64, missing bool, er
 	q.Upgrade()
 
 	if err != nil {
+		verifhook.Yield("add.errc", q)
 		q.errorc <- err
 		return
 	}
@@ -376,6 +378,7 @@ func (q *TransferQueue) Add(name, path, oid string, size int64, missing bool, er
 			// this OID, then this object is already "done", and can
 			// be sent through as completed to the watchers.
 			for _, w := range q.watchers {
+				verifhook.Yield("add.watch", q)
 				w <- t.ToTransfer()
 			}
 		}
@@ -386,6 +389,7 @@ func (q *TransferQueue) Add(name, path, oid string, size int64, missing bool, er
 		return
 	}
 
+	verifhook.Yield("add.incoming", q)
 	q.incoming <- t
 }
 
@@ -396,10 +400,13 @@ func (q *TransferQueue) Add(name, path, oid string, size int64, missing bool, er
 func (q *TransferQueue) remember(t *objectTuple) objects {
 	q.Upgrade()
 
+	verifhook.Lock("remember", q)
 	q.trMutex.Lock()
 	defer q.trMutex.Unlock()
+	defer verifhook.Unlock("remember", q)
 
 	if _, ok := q.transfers[t.Oid]; !ok {
+		verifhook.Event("wg+1", q, t.Oid)
 		q.wait.Add(1)
 		q.transfers[t.Oid] = &objects{
 			objects: []*objectTuple{t},
@@ -436,6 +443,8 @@ func (q *TransferQueue) remember(t *objectTuple) objects {
 // collectBatches runs in its own goroutine.
 func (q *TransferQueue) collectBatches() {
 	defer q.collectorWait.Done()
+	defer verifhook.Yield("collect.exit", q)
+	verifhook.Yield("collect.start", q)
 
 	var closing bool
 	next := q.makeBatch()
@@ -443,6 +452,7 @@ func (q *TransferQueue) collectBatches() {
 
 	for {
 		for !closing && (len(next) < q.batchSize) {
+			verifhook.Yield("collect.recv", q)
 			t, ok := <-q.incoming
 			if !ok {
 				closing = true
@@ -462,7 +472,9 @@ func (q *TransferQueue) collectBatches() {
 		var err error
 
 		go func() {
+			verifhook.Yield("batch.start", q)
 			defer close(done)
+			defer verifhook.Yield("batch.closedone", q)
 
 			if len(next) == 0 {
 				return
@@ -470,6 +482,7 @@ func (q *TransferQueue) collectBatches() {
 
 			retries, err = q.enqueueAndCollectRetriesFor(next)
 			if err != nil {
+				verifhook.Yield("batch.errc.top", q)
 				q.errorc <- err
 			}
 		}()
@@ -482,6 +495,8 @@ func (q *TransferQueue) collectBatches() {
 		// we don't deadlock waiting for objects to complete when they
 		// never will.
 		if err != nil && !errors.IsRetriableError(err) {
+			verifhook.Yield("collect.abort", q)
+			verifhook.Event("abort", q, "")
 			q.wait.Abort()
 			break
 		}
@@ -496,6 +511,7 @@ func (q *TransferQueue) collectBatches() {
 		if len(next) == 0 && len(pending) != 0 {
 			// There are some pending that could not be queued.
 			// Wait the requested time before resuming loop.
+			verifhook.Yield("collect.sleep", q)
 			time.Sleep(minWaitTime)
 		} else if len(next) == 0 && len(pending) == 0 && closing {
 			// There are no items remaining, it is safe to break
@@ -546,6 +562,7 @@ func (q *TransferQueue) enqueueAndCollectRetriesFor(batch batch) (batch, error) 
 
 	enqueueRetry := func(t *objectTuple, err error, readyTime *time.Time) {
 		count := q.rc.Increment(t.Oid)
+		later := !t.retryLaterTime.IsZero() || readyTime != nil
 
 		if !t.retryLaterTime.IsZero() {
 			t.ReadyTime = t.retryLaterTime
@@ -556,6 +573,7 @@ func (q *TransferQueue) enqueueAndCollectRetriesFor(batch batch) (batch, error) 
 			t.ReadyTime = *readyTime
 		}
 		delay := time.Until(t.ReadyTime).Seconds()
+		verifhook.Event("retry", q, t.Oid, count, t.ReadyTime, later)
 
 		var errMsg string
 		if err != nil {
@@ -582,7 +600,11 @@ func (q *TransferQueue) enqueueAndCollectRetriesFor(batch batch) (batch, error) 
 		// Query the Git LFS server for what transfer method to use and
 		// details such as URLs, authentication, etc.
 		var err error
+		if verifhook.Enabled {
+			verifhook.Event("batch.call", q, "", batch.ToTransfers())
+		}
 		bRes, err = Batch(q.manifest, q.direction, q.remote, q.ref, batch.ToTransfers())
+		verifhook.Event("batch.ret", q, "", err)
 		if err != nil {
 			var hasNonRetriableObjects = false
 			// If there was an error making the batch API call, mark all of
@@ -595,6 +617,8 @@ func (q *TransferQueue) enqueueAndCollectRetriesFor(batch batch) (batch, error) 
 					enqueueRetry(t, err, &readyTime)
 				} else {
 					hasNonRetriableObjects = true
+					verifhook.Yield("batch.wgdone.apierr", q)
+					verifhook.Event("wg-1", q, t.Oid, "batch-api-error", err)
 					q.wait.Done()
 				}
 			}
@@ -637,24 +661,32 @@ func (q *TransferQueue) enqueueAndCollectRetriesFor(batch batch) (batch, error) 
 
 	for _, o := range bRes.Objects {
 		if o.Error != nil {
+			verifhook.Yield("batch.errc.objerr", q)
 			q.errorc <- errors.Wrapf(o.Error, "[%v] %v", o.Oid, o.Error.Message)
 			q.Skip(o.Size)
+			verifhook.Yield("batch.wgdone.objerr", q)
+			verifhook.Event("wg-1", q, o.Oid, "object-error", o.Error)
 			q.wait.Done()
 
 			continue
 		}
 
+		verifhook.Lock("batch.lookup", q)
 		q.trMutex.Lock()
 		objects, ok := q.transfers[o.Oid]
 		q.trMutex.Unlock()
+		verifhook.Unlock("batch.lookup", q)
 		if !ok {
 			// If we couldn't find any associated
 			// Transfer object, then we give up on the
 			// transfer by telling the progress meter to
 			// skip the number of bytes in "o".
+			verifhook.Yield("batch.errc.unknown", q)
 			q.errorc <- errors.New(tr.Tr.Get("[%v] The server returned an unknown OID.", o.Oid))
 
 			q.Skip(o.Size)
+			verifhook.Yield("batch.wgdone.unknown", q)
+			verifhook.Event("wg-1", q, o.Oid, "unknown-oid")
 			q.wait.Done()
 		} else {
 			// Pick t[0], since it will cover all transfers with the
@@ -665,13 +697,18 @@ func (q *TransferQueue) enqueueAndCollectRetriesFor(batch batch) (batch, error) 
 				if q.canRetryObject(tr.Oid, err) {
 					enqueueRetry(objects.First(), err, nil)
 				} else {
+					verifhook.Yield("batch.errc.rel", q)
 					q.errorc <- errors.Errorf("[%v] %v", tr.Name, err)
 
 					q.Skip(o.Size)
+					verifhook.Yield("batch.wgdone.rel", q)
+					verifhook.Event("wg-1", q, o.Oid, "rel-error", err)
 					q.wait.Done()
 				}
 			} else if a == nil && manifest.standaloneTransferAgent == "" {
 				q.Skip(o.Size)
+				verifhook.Yield("batch.wgdone.noaction", q)
+				verifhook.Event("wg-1", q, o.Oid, "no-action")
 				q.wait.Done()
 			} else {
 				q.meter.StartTransfer(objects.First().Name)
@@ -682,6 +719,7 @@ func (q *TransferQueue) enqueueAndCollectRetriesFor(batch batch) (batch, error) 
 
 	retries := q.addToAdapter(bRes.endpoint, toTransfer)
 	for t := range retries {
+		verifhook.Yield("batch.retry", q)
 		enqueueRetry(t, nil, nil)
 	}
 
@@ -706,9 +744,12 @@ func (q *TransferQueue) addToAdapter(e lfshttp.Endpoint, pending []*Transfer) <-
 	if err := q.ensureAdapterBegun(e); err != nil {
 		close(retries)
 
+		verifhook.Yield("batch.errc.begin", q)
 		q.errorc <- err
 		for _, t := range pending {
 			q.Skip(t.Size)
+			verifhook.Yield("batch.wgdone.begin", q)
+			verifhook.Event("wg-1", q, t.Oid, "adapter-begin-error", err)
 			q.wait.Done()
 		}
 
@@ -718,7 +759,9 @@ func (q *TransferQueue) addToAdapter(e lfshttp.Endpoint, pending []*Transfer) <-
 	present, missingResults := q.partitionTransfers(pending)
 
 	go func() {
+		verifhook.Yield("handler.start", q)
 		defer close(retries)
+		defer verifhook.Yield("handler.closeretries", q)
 
 		var results <-chan TransferResult
 		if q.dryRun {
@@ -728,9 +771,11 @@ func (q *TransferQueue) addToAdapter(e lfshttp.Endpoint, pending []*Transfer) <-
 		}
 
 		for _, res := range missingResults {
+			verifhook.Yield("handler.missing", q)
 			q.handleTransferResult(res, retries)
 		}
 		for res := range results {
+			verifhook.Yield("handler.result", q)
 			q.handleTransferResult(res, retries)
 		}
 	}()
@@ -807,15 +852,19 @@ func (q *TransferQueue) handleTransferResult(
 			// after a certain period of time, send it to
 			// the retry channel with a time when it's ready.
 			tracerx.Printf("tq: retrying object %s after %.2fs", oid, time.Until(readyTime).Seconds())
+			verifhook.Lock("handler.later", q)
 			q.trMutex.Lock()
 			objects, ok := q.transfers[oid]
 			q.trMutex.Unlock()
+			verifhook.Unlock("handler.later", q)
 
 			if ok {
 				t := objects.First()
 				t.retryLaterTime = readyTime
+				verifhook.Yield("handler.retry.later", q)
 				retries <- t
 			} else {
+				verifhook.Yield("handler.errc.later", q)
 				q.errorc <- res.Error
 			}
 		} else if q.canRetryObject(oid, res.Error) {
@@ -824,13 +873,17 @@ func (q *TransferQueue) handleTransferResult(
 			// its retry count will be incremented.
 			tracerx.Printf("tq: retrying object %s: %s", oid, res.Error)
 
+			verifhook.Lock("handler.now", q)
 			q.trMutex.Lock()
 			objects, ok := q.transfers[oid]
 			q.trMutex.Unlock()
+			verifhook.Unlock("handler.now", q)
 
 			if ok {
+				verifhook.Yield("handler.retry.now", q)
 				retries <- objects.First()
 			} else {
+				verifhook.Yield("handler.errc.now", q)
 				q.errorc <- res.Error
 			}
 		} else {
@@ -842,11 +895,15 @@ func (q *TransferQueue) handleTransferResult(
 			if errors.IsUnprocessableEntityError(res.Error) {
 				q.unsupportedContentType = true
 			} else {
+				verifhook.Yield("handler.errc.fail", q)
 				q.errorc <- res.Error
 			}
+			verifhook.Yield("handler.wgdone.fail", q)
+			verifhook.Event("wg-1", q, oid, "transfer-failed", res.Error)
 			q.wait.Done()
 		}
 	} else {
+		verifhook.Lock("handler.ok", q)
 		q.trMutex.Lock()
 		objects := q.transfers[oid]
 		objects.completed = true
@@ -857,6 +914,7 @@ func (q *TransferQueue) handleTransferResult(
 			// Send one update for each transfer with the
 			// same OID.
 			for _, t := range objects.All() {
+				verifhook.Yield("handler.watch", q)
 				c <- &Transfer{
 					Name:    t.Name,
 					Path:    t.Path,
@@ -869,8 +927,11 @@ func (q *TransferQueue) handleTransferResult(
 		}
 
 		q.trMutex.Unlock()
+		verifhook.Unlock("handler.ok", q)
 
 		q.meter.FinishTransfer(res.Transfer.Name)
+		verifhook.Yield("handler.wgdone.ok", q)
+		verifhook.Event("wg-1", q, oid, "transfer-ok")
 		q.wait.Done()
 	}
 }
@@ -959,20 +1020,28 @@ func (q *TransferQueue) toAdapterCfg(e lfshttp.Endpoint) AdapterConfig {
 // called, Add will no longer add transfers to the queue. Any failed
 // transfers will be automatically retried once.
 func (q *TransferQueue) Wait() {
+	verifhook.Yield("wait.closeincoming", q)
 	close(q.incoming)
 
+	verifhook.Yield("wait.wg", q)
 	q.wait.Wait()
+	verifhook.Yield("wait.collector", q)
 	q.collectorWait.Wait()
 
+	verifhook.Yield("wait.finish", q)
 	q.finishAdapter()
+	verifhook.Yield("wait.closeerrc", q)
 	close(q.errorc)
 
 	for _, watcher := range q.watchers {
+		verifhook.Yield("wait.closewatch", q)
 		close(watcher)
 	}
 
 	q.meter.Flush()
+	verifhook.Yield("wait.errwait", q)
 	q.errorwait.Wait()
+	verifhook.Event("wait.ret", q, "")
 
 	if q.manifest.Upgraded() {
 		manifest := q.manifest.Upgrade()
@@ -1002,9 +1071,12 @@ func (q *TransferQueue) Watch() chan *Transfer {
 
 // This goroutine collects errors returned from transfers
 func (q *TransferQueue) errorCollector() {
+	verifhook.Yield("errc.start", q)
 	for err := range q.errorc {
+		verifhook.Yield("errc.got", q)
 		q.errors = append(q.errors, err)
 	}
+	verifhook.Yield("errc.done", q)
 	q.errorwait.Done()
 }
 
